@@ -200,7 +200,8 @@ def check_bingham(R, monitor, b, opts, where):
     D = U.shape[-1]
     G = np.einsum('...ab,...ac->...bc', U.conj(), U)
     dev = float(np.abs(G - np.eye(D)).max())
-    R.check(monitor, dev <= 1e-8, 'domain/bingham/not-unitary', f'{where}: |U^H U - I| = {dev:.3e}', prop='C09')
+    R.check(monitor, dev <= (1e-8 if U.dtype == np.complex128 else 2e-5), 'domain/bingham/not-unitary',      # unitary in the precision the eigenvectors are stored in
+            f'{where}: |U^H U - I| = {dev:.3e}', prop='C09')
 
 
 DISPATCH = dict(ComplexAngularCentralGaussian=check_cacg, ComplexWatson=check_watson, VonMisesFisher=check_vmf,
